@@ -244,6 +244,40 @@ def shot_noise_boundary(case, ctx):
         raise Violation("C18.boundary.reproducible", f"{what}: same seed, different draw")
 
 
+@hyp("C18", "shot_noise_huge", lambda tier: st.fixed_dictionaries(
+        {"shape": st.tuples(st.integers(4097, 4300), st.integers(4097, 4300)).map(list) | st.tuples(st.integers(2049, 2300), st.integers(8193, 8400)).map(list),
+         "method": st.sampled_from(["poisson", "gaussian"]), "seed": st.integers(0, 2**40), "lam": st.sampled_from([2000.0, 5e4])}),
+     "shot noise on frames of more than 2^24 pixels (sizes of no special form): every block of 8 rows has mean and "
+     "variance equal to the signal and depends on the seed", examples=(1, 2), budget_s=(200, 600))
+def shot_noise_huge(case, ctx):
+    shape = tuple(case["shape"])
+    lam = case["lam"]
+    ctx.tag("method:" + case["method"], "pixels>2^24")
+    ctx.nontrivial_if(True)
+    img = np.full(shape, lam)
+    with lentil_call("C18.huge", f"shot_noise({case['method']}) on a {shape} frame"):
+        a = np.asarray(detector.shot_noise(img, method=case["method"], seed=case["seed"]), dtype=np.float32)
+        b = np.asarray(detector.shot_noise(img, method=case["method"], seed=case["seed"] + 1), dtype=np.float32)
+    if a.shape != shape or np.any(a < 0):
+        raise Violation("C18.huge.support", f"shape {a.shape} / negative counts for a {shape} frame")
+    nb = shape[0] // 8
+    za = ((a[:nb * 8] - lam) / np.sqrt(lam)).reshape(nb, 8 * shape[1])
+    var, mean = za.var(axis=1), za.mean(axis=1)
+    n = 8 * shape[1]
+    bad = np.flatnonzero((np.abs(var - 1) > 7 * np.sqrt(2.0 / n) + 2.0 / lam) | (np.abs(mean) > 7 / np.sqrt(n) + 1.0 / np.sqrt(lam)))
+    tail = (a[nb * 8:] - lam) / np.sqrt(lam)
+    if tail.size and abs(float(tail.var()) - 1) > 7 * np.sqrt(2.0 / tail.size) + 2.0 / lam:
+        bad = np.append(bad, nb)
+    if bad.size:
+        r = int(bad[0]) * 8
+        raise Violation("C18.huge.moments", f"shot_noise({case['method']}) on a {shape} frame: rows {r}..{min(r + 7, shape[0] - 1)} "
+                                            f"have normalised variance {float(var[bad[0]]) if bad[0] < nb else float(tail.var()):.4f} "
+                                            f"(mean {float(mean[bad[0]]) if bad[0] < nb else float(tail.mean()):.4f}), expected 1 (0)")
+    same_rows = np.flatnonzero((a == b).all(axis=1))
+    if same_rows.size:
+        raise Violation("C18.huge.seed", f"rows {same_rows[:4].tolist()}... of a {shape} frame are identical for two seeds")
+
+
 # --- read noise, dark current -----------------------------------------------------------------------------------
 
 @st.composite
